@@ -136,7 +136,7 @@ def gen_exchange(rng, tag, key, last, quick):
             rhs.append((rng.choice(["Connection", "connection", "CONNECTION"]), rng.choice(["close", "Close", "close, x-foo"])))
         elif r < 0.075 and len(rbody) > 4:
             kind = "truncated"          # the host connection fails in the middle of the body
-        elif r < 0.095:
+        elif r < 0.11:
             kind = "noreply"            # the host reads the whole request, then drops the connection without answering
     # at most ONE Connection header per answer: hyper joins repeated Connection headers into one comma-separated value (an
     # equivalent spelling of the same list, but not byte-identical)
